@@ -322,6 +322,12 @@ fn candidate_nameservers(
 
             if let Ok(LocalResolutionResult::Done { resolved }) = resolve_local(context, &ns_q) {
                 for ns_rr in resolved.rrs() {
+                    // only NS RRs of this very name: if the name is an alias
+                    // the local resolver follows it, and the nameservers of
+                    // the alias target say nothing about this name
+                    if ns_rr.name != name {
+                        continue;
+                    }
                     if let RecordTypeWithData::NS { nsdname } = &ns_rr.rtype_with_data {
                         hostnames.push(nsdname.clone());
                     }
